@@ -179,6 +179,12 @@ def c_eval(node, env, cu=None, depth=0):
                 if x.get("kind") == "DeclRefExpr" and x.get("referencedDecl", {}).get("kind") == "FunctionDecl":
                     callee = x["referencedDecl"]["name"]
             fn = cu.functions.get(callee)
+            if fn is None and callee in ("abs", "labs", "llabs") and len(inner) == 2:
+                # <stdlib.h>: the argument has already been converted to the parameter type by the cast around it; the most negative value
+                # has no positive counterpart and is returned unchanged (what every two's complement implementation does)
+                a_ = sub(inner[1])
+                lo = -(1 << 31) if callee == "abs" else -(1 << 63)
+                return a_ if a_ == lo else abs(a_)
             if fn is None:
                 raise CEvalError(f"call of {callee}")
             params = [p_.get("name") for p_ in fn.get("inner", []) if p_.get("kind") == "ParmVarDecl"]
@@ -187,6 +193,16 @@ def c_eval(node, env, cu=None, depth=0):
                 raise CEvalError(f"call of {callee}: not a single-return helper")
             args = [sub(a_) for a_ in inner[1:]]
             return c_eval(body[0]["inner"][0]["inner"][0], dict(zip(params, args)), cu, depth + 1)
+        if k in ("ImplicitCastExpr", "CStyleCastExpr") and node.get("castKind") == "IntegralCast":
+            # conversion to a narrower (or differently signed) integer type wraps (LP64, two's complement)
+            v_ = sub(inner[-1])
+            t = ((node.get("type") or {}).get("qualType") or "").replace("const ", "")
+            if t in C_SIZEOF:
+                bits = 8 * C_SIZEOF[t]
+                v_ &= (1 << bits) - 1
+                if not (t.startswith("unsigned") or t.startswith("uint") or t == "size_t") and v_ >= 1 << (bits - 1):
+                    v_ -= 1 << bits
+            return v_
         if k in ("ImplicitCastExpr", "ParenExpr", "CStyleCastExpr", "ConstantExpr"):
             return sub(inner[-1])
         if k == "ConditionalOperator":
@@ -262,3 +278,26 @@ def c_eval(node, env, cu=None, depth=0):
             return a ^ b
         raise CEvalError(f"binary {op}")
     raise CEvalError(f"node kind {k}")
+
+
+def c_exec(stmt, env, cu):
+    """Executes a side-effect-simple statement (compound statement, if / else, assignments `name = expr` / `name op= expr` to plain variables)
+    on `env` (name -> int) in place. Anything else raises CEvalError."""
+    k = stmt.get("kind")
+    inner = stmt.get("inner", []) or []
+    if k == "CompoundStmt":
+        for s_ in inner:
+            c_exec(s_, env, cu)
+        return env
+    if k == "IfStmt":
+        if c_eval(inner[0], env, cu):
+            c_exec(inner[1], env, cu)
+        elif len(inner) > 2:
+            c_exec(inner[2], env, cu)
+        return env
+    if k == "BinaryOperator" and stmt.get("opcode") == "=" and inner[0].get("kind") == "DeclRefExpr":
+        env[inner[0]["referencedDecl"]["name"]] = c_eval(inner[1], env, cu)
+        return env
+    if k == "NullStmt":
+        return env
+    raise CEvalError(f"statement {k}")
